@@ -18,6 +18,8 @@ def specs(tier):
         for dg, dt in ((0, 1), (1, 0)):
             for t2 in ("exon", "transcript"):
                 combos.append((dg, dt, "none", t2, "exon"))
+        for t2 in ("exon", "CDS"):
+            combos.append((0, 0, "cds", t2, "CDS"))      # custom gtf_subfeature: extents come from the CDS lines
     else:
         for dg, dt, l3, t2 in itertools.product((0, 1), (0, 1), ("none", "transcript", "gene", "cds", "exon"), TYPES):
             combos.append((dg, dt, l3, t2, "exon"))
